@@ -1,6 +1,7 @@
 SPECIFICATION Spec
 CONSTANTS Weights = {1, 49, 50, 51, 100}
  MaxSigners = 2
+ ExtraCfgs <- McExtraQuick
  MaxSigs = 3
  TamperFields = {"to", "amount", "gasPrice", "gasLimit", "data", "expiration", "chainID", "type", "toName", "message", "gasPayer", "version"}
  PayCfgs <- McPayCfgs
@@ -10,7 +11,7 @@ CONSTANTS Weights = {1, 49, 50, 51, 100}
  Kinds = {"vote"}
  ReconfCfgs <- McReconfQuick
  NewCfgs <- McNewCfgs
- Slices = {"sigs", "tamper", "payer", "box", "kinds", "reconf"}
+ Slices = {"sigs", "tamper", "payer", "junk", "box", "kinds", "reconf"}
  Dev = {}
 VIEW View
 PROPERTIES EffectOnlyIfAuthorized CanonicalAccepted RepeatNeverHelps ForeignNeverHelps RemovalNeverHelps EncodingIrrelevant TamperFalsifies PayerBinds ThresholdExact Reconf
